@@ -1,0 +1,59 @@
+// This Source Code Form is subject to the terms of the Mozilla Public
+// License, v. 2.0. If a copy of the MPL was not distributed with this file,
+// You can obtain one at http://mozilla.org/MPL/2.0/.
+
+//! Entry points for external verification harnesses.
+//!
+//! Only compiled with `--cfg vhdl_ls_rust_hdl_verif`; gives a harness crate access to
+//! crate-private front-end pieces (tokenizer, formatter buffer, symbol table) without changing them.
+
+pub use crate::data::{ContentReader, Contents, Symbol, SymbolTable};
+pub use crate::syntax::{Comment, Kind, Symbols, TokenComments, Tokenizer, Value};
+
+use crate::data::{Diagnostic, Latin1String, Source};
+use crate::formatting::VerifHooksBuffer as Buffer;
+use crate::syntax::Token;
+use std::path::Path;
+
+/// Run the tokenizer alone over `code`.
+pub fn tokenize(code: &str) -> (Vec<Token>, Vec<Diagnostic>) {
+    let symbols = Symbols::default();
+    let source = Source::inline(Path::new("verif_hooks.vhd"), code);
+    let contents = source.contents();
+    let mut tokenizer = Tokenizer::new(&symbols, &source, ContentReader::new(&contents));
+    let mut tokens = Vec::new();
+    let mut diagnostics = Vec::new();
+    loop {
+        match tokenizer.pop() {
+            Ok(Some(token)) => tokens.push(token),
+            Ok(None) => break,
+            Err(diagnostic) => diagnostics.push(diagnostic),
+        }
+    }
+    diagnostics.extend(tokenizer.take_diagnostics());
+    (tokens, diagnostics)
+}
+
+/// Render one token (with its comments) the way the formatter does.
+pub fn render_token(token: &Token) -> String {
+    let mut buffer = Buffer::new();
+    buffer.push_token(token);
+    buffer.into()
+}
+
+/// Intern `names` in order in a fresh symbol table (a name starting with a backslash as an extended identifier);
+/// returns the ids.
+pub fn intern(names: &[Vec<u8>]) -> Vec<usize> {
+    let table = SymbolTable::default();
+    names
+        .iter()
+        .map(|name| {
+            let name = Latin1String::new(name);
+            if name.bytes.first() == Some(&b'\\') {
+                table.insert_extended(&name).id
+            } else {
+                table.insert(&name).id
+            }
+        })
+        .collect()
+}
